@@ -9,45 +9,44 @@ local macro "len_omega" : tactic =>
   `(tactic| ((try simp only [List.length_append, List.length_cons, List.length_nil]) <;> (try omega)))
 local macro "lst" : tactic => `(tactic| ((try simp only [List.append_assoc, List.cons_append, List.nil_append]) <;> (try rfl)))
 
-theorem tr_for (fuel : Nat) (env : Src.Env) (he : EnvOK cx env) (init inc : Src.Stmt) (t : Ev) (B : Src.Stmts) (k : Nat) (b : Src.B) :
-    Src.tr fuel [] env (.for_ init t inc B) k b =
-      Src.tr fuel [] env init (tbl b).length
-        ((Src.trStmts fuel [] (loopEnv env (Src.tr fuel [] env inc (tbl b).length (b.push (.halt (evInvalid "loop test"))).1).2 k) B
-            (Src.tr fuel [] env inc (tbl b).length (b.push (.halt (evInvalid "loop test"))).1).2
-            (Src.tr fuel [] env inc (tbl b).length (b.push (.halt (evInvalid "loop test"))).1).1).1.set (tbl b).length
-          (.test t (Src.trStmts fuel [] (loopEnv env (Src.tr fuel [] env inc (tbl b).length (b.push (.halt (evInvalid "loop test"))).1).2 k) B
-            (Src.tr fuel [] env inc (tbl b).length (b.push (.halt (evInvalid "loop test"))).1).2
-            (Src.tr fuel [] env inc (tbl b).length (b.push (.halt (evInvalid "loop test"))).1).1).2 k)) := by
-  have e : Src.substEv env.subst t = t := by rw [he.1, substEv_nil]
-  rw [Src.tr]; simp only [e]; rfl
+theorem tr_for (fuel : Nat) (sm : List Src.Macro) (env : Src.Env) (init inc : Src.Stmt) (t : Ev) (B : Src.Stmts) (k : Nat) (b : Src.B) :
+    Src.tr fuel sm env (.for_ init t inc B) k b =
+      Src.tr fuel sm env init (tbl b).length
+        ((Src.trStmts fuel sm (loopEnv env (Src.tr fuel sm env inc (tbl b).length (b.push (.halt (evInvalid "loop test"))).1).2 k) B
+            (Src.tr fuel sm env inc (tbl b).length (b.push (.halt (evInvalid "loop test"))).1).2
+            (Src.tr fuel sm env inc (tbl b).length (b.push (.halt (evInvalid "loop test"))).1).1).1.set (tbl b).length
+          (.test (Src.substEv env.subst t) (Src.trStmts fuel sm (loopEnv env (Src.tr fuel sm env inc (tbl b).length (b.push (.halt (evInvalid "loop test"))).1).2 k) B
+            (Src.tr fuel sm env inc (tbl b).length (b.push (.halt (evInvalid "loop test"))).1).2
+            (Src.tr fuel sm env inc (tbl b).length (b.push (.halt (evInvalid "loop test"))).1).1).2 k)) := by
+  rw [Src.tr]; rfl
 
-theorem afterCtxL_label {rs : List (List LItem)} {r i : Nat} {l : Nat} {nm : Bool} (h : itemAt rs ⟨r, i⟩ = some (.label l nm)) :
+theorem afterCtxL_label {c : Copy} {rs : List (List LItem)} {r i : Nat} {l : Nat} {nm : Bool} (h : ItemC c rs ⟨r, i⟩ (.label l nm)) :
     afterCtxL rs ⟨r, i + 1⟩ = false := by
-  rw [afterCtxL_succ, h]; rfl
+  rw [afterCtxL_itemC h]; rfl
 
 theorem for_core (cx : Cx) (fuel : Nat) (env : Src.Env) (he : EnvOK cx env) (lb : Nat) (hd : Hdr) (init inc : Stmt) (body : Stmts)
     (ht : isTest hd.name = true) {s sa sb s' : St} {ii ee ops : List LItem} (o1 o2 sL eB : Nat)
-    (hI : SimpleOK cx ii (fun k b => Src.tr fuel [] env (toSrcStmt init) k b))
-    (hE : SimpleOK cx ee (fun k b => Src.tr fuel [] env (toSrcStmt inc) k b))
-    (hP : ∀ env', EnvOK cx env' → PieceOK cx ops sa sb (fun k b => Src.trStmts fuel [] env' (toSrcStmts body) k b) env')
+    (hI : SimpleOK cx ii (fun k b => Src.tr fuel cx.sm env (toSrcStmt init) k b))
+    (hE : SimpleOK cx ee (fun k b => Src.tr fuel cx.sm env (toSrcStmt inc) k b))
+    (hP : ∀ env', EnvOK cx env' → PieceOK cx ops sa sb (fun k b => Src.trStmts fuel cx.sm env' (toSrcStmts body) k b) env')
     (hsaL : sa.loops = (lb + 4, lb + 2) :: s.loops) (hsaC : sa.cases = s.cases) (hl : s'.loops = s.loops) (hc : s'.cases = s.cases)
     (hnA : NamedLe s sa) (hnB : NamedLe sb s') :
     PieceOK cx ([LItem.label (lb + 1) false] ++ ii ++ [LItem.ljump ⟨o1, Gen.op_jump, []⟩ (some (lb + 5)), LItem.label (lb + 3) false] ++
         ([LItem.label sL false] ++ ops ++ [LItem.label eB false]) ++ [LItem.label (lb + 4) false] ++ ee ++
         [LItem.label (lb + 5) false, LItem.ljump ⟨o2, hd.name, hd.params⟩ (some (lb + 3)), LItem.label (lb + 2) false]) s s'
-      (fun k b => Src.tr fuel [] env (.for_ (toSrcStmt init) (hdrEv hd) (toSrcStmt inc) (toSrcStmts body)) k b) env := by
+      (fun k b => Src.tr fuel cx.sm env (.for_ (toSrcStmt init) (hdrEv hd) (toSrcStmt inc) (toSrcStmts body)) k b) env := by
   have hP0 := hP env he
-  have htr := fun k b => tr_for fuel env he (toSrcStmt init) (toSrcStmt inc) (hdrEv hd) (toSrcStmts body) k b
+  have htr := fun k b => tr_for fuel cx.sm env (toSrcStmt init) (toSrcStmt inc) (hdrEv hd) (toSrcStmts body) k b
   have hg4 : ∀ k b, Grow cx.Z b
-      ((Src.trStmts fuel [] (loopEnv env (Src.tr fuel [] env (toSrcStmt inc) (tbl b).length (b.push (.halt (evInvalid "loop test"))).1).2 k)
-          (toSrcStmts body) (Src.tr fuel [] env (toSrcStmt inc) (tbl b).length (b.push (.halt (evInvalid "loop test"))).1).2
-          (Src.tr fuel [] env (toSrcStmt inc) (tbl b).length (b.push (.halt (evInvalid "loop test"))).1).1).1.set (tbl b).length
-        (.test (hdrEv hd) (Src.trStmts fuel [] (loopEnv env (Src.tr fuel [] env (toSrcStmt inc) (tbl b).length (b.push (.halt (evInvalid "loop test"))).1).2 k)
-          (toSrcStmts body) (Src.tr fuel [] env (toSrcStmt inc) (tbl b).length (b.push (.halt (evInvalid "loop test"))).1).2
-          (Src.tr fuel [] env (toSrcStmt inc) (tbl b).length (b.push (.halt (evInvalid "loop test"))).1).1).2 k)) := by
+      ((Src.trStmts fuel cx.sm (loopEnv env (Src.tr fuel cx.sm env (toSrcStmt inc) (tbl b).length (b.push (.halt (evInvalid "loop test"))).1).2 k)
+          (toSrcStmts body) (Src.tr fuel cx.sm env (toSrcStmt inc) (tbl b).length (b.push (.halt (evInvalid "loop test"))).1).2
+          (Src.tr fuel cx.sm env (toSrcStmt inc) (tbl b).length (b.push (.halt (evInvalid "loop test"))).1).1).1.set (tbl b).length
+        (.test (Src.substEv env.subst (hdrEv hd)) (Src.trStmts fuel cx.sm (loopEnv env (Src.tr fuel cx.sm env (toSrcStmt inc) (tbl b).length (b.push (.halt (evInvalid "loop test"))).1).2 k)
+          (toSrcStmts body) (Src.tr fuel cx.sm env (toSrcStmt inc) (tbl b).length (b.push (.halt (evInvalid "loop test"))).1).2
+          (Src.tr fuel cx.sm env (toSrcStmt inc) (tbl b).length (b.push (.halt (evInvalid "loop test"))).1).1).2 k)) := by
     intro k b
     exact (((Grow.push b _).trans (hE.grow _ _)).trans ((hP _ (plainEnv_loopEnv he _ _)).grow _ _)).set_ge (Nat.le_refl _) _
-  have hgrow : ∀ k b, Grow cx.Z b (Src.tr fuel [] env (.for_ (toSrcStmt init) (hdrEv hd) (toSrcStmt inc) (toSrcStmts body)) k b).1 := by
+  have hgrow : ∀ k b, Grow cx.Z b (Src.tr fuel cx.sm env (.for_ (toSrcStmt init) (hdrEv hd) (toSrcStmt inc) (toSrcStmts body)) k b).1 := by
     intro k b
     rw [htr]
     exact (hg4 k b).trans (hI.grow _ _)
@@ -77,60 +76,60 @@ theorem for_core (cx : Cx) (fuel : Nat) (env : Src.Env) (he : EnvOK cx env) (lb 
   have hend := hcont hfalls
   rw [htr] at hag ⊢
   -- names for the parts of the source translation
-  generalize hRI : Src.tr fuel [] env (toSrcStmt inc) (tbl b).length (b.push (.halt (evInvalid "loop test"))).1 = RI at hag ⊢
+  generalize hRI : Src.tr fuel cx.sm env (toSrcStmt inc) (tbl b).length (b.push (.halt (evInvalid "loop test"))).1 = RI at hag ⊢
   have hgI : Grow cx.Z (b.push (.halt (evInvalid "loop test"))).1 RI.1 := by rw [← hRI]; exact hE.grow _ _
   have hPe := hP (loopEnv env RI.2 k) (plainEnv_loopEnv he _ _)
-  generalize hRB : Src.trStmts fuel [] (loopEnv env RI.2 k) (toSrcStmts body) RI.2 RI.1 = RB at hag ⊢
+  generalize hRB : Src.trStmts fuel cx.sm (loopEnv env RI.2 k) (toSrcStmts body) RI.2 RI.1 = RB at hag ⊢
   have hgB : Grow cx.Z RI.1 RB.1 := by rw [← hRB]; exact hPe.grow _ _
-  have hg4' : Grow cx.Z b (RB.1.set (tbl b).length (.test (hdrEv hd) RB.2 k)) :=
+  have hg4' : Grow cx.Z b (RB.1.set (tbl b).length (.test (Src.substEv env.subst (hdrEv hd)) RB.2 k)) :=
     (((Grow.push b _).trans hgI).trans hgB).set_ge (Nat.le_refl _) _
-  have hgInit := hI.grow (tbl b).length (RB.1.set (tbl b).length (.test (hdrEv hd) RB.2 k))
-  have agI : AgreeOn cx.N cx.Z (RB.1.set (tbl b).length (.test (hdrEv hd) RB.2 k))
-      (Src.tr fuel [] env (toSrcStmt init) (tbl b).length (RB.1.set (tbl b).length (.test (hdrEv hd) RB.2 k))).1 :=
+  have hgInit := hI.grow (tbl b).length (RB.1.set (tbl b).length (.test (Src.substEv env.subst (hdrEv hd)) RB.2 k))
+  have agI : AgreeOn cx.N cx.Z (RB.1.set (tbl b).length (.test (Src.substEv env.subst (hdrEv hd)) RB.2 k))
+      (Src.tr fuel cx.sm env (toSrcStmt init) (tbl b).length (RB.1.set (tbl b).length (.test (Src.substEv env.subst (hdrEv hd)) RB.2 k))).1 :=
     hag.sub_grow hg4' (Grow.refl _)
-  have ag4 : AgreeOn cx.N cx.Z b (RB.1.set (tbl b).length (.test (hdrEv hd) RB.2 k)) :=
+  have ag4 : AgreeOn cx.N cx.Z b (RB.1.set (tbl b).length (.test (Src.substEv env.subst (hdrEv hd)) RB.2 k)) :=
     hag.sub_grow (Grow.refl b) hgInit
   obtain ⟨hNt, ag13⟩ := agree_set ag4 (hgI.trans hgB)
   have agE : AgreeOn cx.N cx.Z (b.push (.halt (evInvalid "loop test"))).1 RI.1 := ag13.sub_grow (Grow.refl _) hgB
   have agB : AgreeOn cx.N cx.Z RI.1 RB.1 := ag13.sub_grow hgI (Grow.refl _)
   -- positions
-  have hit0 : itemAt cx.rs ⟨r, i0⟩ = some (.label (lb + 1) false) := hp.here' [] _ _ (by lst) (by len_omega)
-  have hpI : Placed cx.rs r (i0 + 1) ii := hp.mid' [LItem.label (lb + 1) false] ii _ (by lst) (by len_omega)
-  have hitJ : itemAt cx.rs ⟨r, i0 + ii.length + 1⟩ = some (.ljump ⟨o1, Gen.op_jump, []⟩ (some (lb + 5))) :=
+  have hit0 : ItemC cx.cp cx.rs ⟨r, i0⟩ (.label (lb + 1) false) := hp.here' [] _ _ (by lst) (by len_omega)
+  have hpI : Placed cx.cp cx.rs r (i0 + 1) ii := hp.mid' [LItem.label (lb + 1) false] ii _ (by lst) (by len_omega)
+  have hitJ : ItemC cx.cp cx.rs ⟨r, i0 + ii.length + 1⟩ (.ljump ⟨o1, Gen.op_jump, []⟩ (some (lb + 5))) :=
     hp.here' ([LItem.label (lb + 1) false] ++ ii) _ _ (by lst) (by len_omega)
-  have hit3 : itemAt cx.rs ⟨r, i0 + ii.length + 2⟩ = some (.label (lb + 3) false) :=
+  have hit3 : ItemC cx.cp cx.rs ⟨r, i0 + ii.length + 2⟩ (.label (lb + 3) false) :=
     hp.here' ([LItem.label (lb + 1) false] ++ ii ++ [LItem.ljump ⟨o1, Gen.op_jump, []⟩ (some (lb + 5))]) _ _ (by lst) (by len_omega)
-  have htgt3 : target cx.rs (lb + 3) = ⟨r, i0 + ii.length + 2⟩ :=
+  have htgt3 : target cx.rs (cx.cp.σ (lb + 3)) = ⟨r, i0 + ii.length + 2⟩ :=
     hp.lbl' cx.hlab ([LItem.label (lb + 1) false] ++ ii ++ [LItem.ljump ⟨o1, Gen.op_jump, []⟩ (some (lb + 5))]) _ _ false (by lst) (by len_omega)
-  have hpBlk : Placed cx.rs r (i0 + ii.length + 3) ([LItem.label sL false] ++ ops ++ [LItem.label eB false] ++
+  have hpBlk : Placed cx.cp cx.rs r (i0 + ii.length + 3) ([LItem.label sL false] ++ ops ++ [LItem.label eB false] ++
       ([LItem.label (lb + 4) false] ++ ee ++
         [LItem.label (lb + 5) false, LItem.ljump ⟨o2, hd.name, hd.params⟩ (some (lb + 3)), LItem.label (lb + 2) false])) :=
     hp.mid' ([LItem.label (lb + 1) false] ++ ii ++ [LItem.ljump ⟨o1, Gen.op_jump, []⟩ (some (lb + 5)), LItem.label (lb + 3) false]) _ []
       (by lst) (by len_omega)
-  have hit4 : itemAt cx.rs ⟨r, i0 + ii.length + ops.length + 5⟩ = some (.label (lb + 4) false) :=
+  have hit4 : ItemC cx.cp cx.rs ⟨r, i0 + ii.length + ops.length + 5⟩ (.label (lb + 4) false) :=
     hp.here' ([LItem.label (lb + 1) false] ++ ii ++ [LItem.ljump ⟨o1, Gen.op_jump, []⟩ (some (lb + 5)), LItem.label (lb + 3) false] ++
         ([LItem.label sL false] ++ ops ++ [LItem.label eB false])) _ _ (by lst) (by len_omega)
-  have htgt4 : target cx.rs (lb + 4) = ⟨r, i0 + ii.length + ops.length + 5⟩ :=
+  have htgt4 : target cx.rs (cx.cp.σ (lb + 4)) = ⟨r, i0 + ii.length + ops.length + 5⟩ :=
     hp.lbl' cx.hlab ([LItem.label (lb + 1) false] ++ ii ++ [LItem.ljump ⟨o1, Gen.op_jump, []⟩ (some (lb + 5)), LItem.label (lb + 3) false] ++
         ([LItem.label sL false] ++ ops ++ [LItem.label eB false])) _ _ false (by lst) (by len_omega)
-  have hpE : Placed cx.rs r (i0 + ii.length + ops.length + 6) ee :=
+  have hpE : Placed cx.cp cx.rs r (i0 + ii.length + ops.length + 6) ee :=
     hp.mid' ([LItem.label (lb + 1) false] ++ ii ++ [LItem.ljump ⟨o1, Gen.op_jump, []⟩ (some (lb + 5)), LItem.label (lb + 3) false] ++
         ([LItem.label sL false] ++ ops ++ [LItem.label eB false]) ++ [LItem.label (lb + 4) false]) ee _ (by lst) (by len_omega)
-  have hit5 : itemAt cx.rs ⟨r, i0 + ii.length + ops.length + ee.length + 6⟩ = some (.label (lb + 5) false) :=
+  have hit5 : ItemC cx.cp cx.rs ⟨r, i0 + ii.length + ops.length + ee.length + 6⟩ (.label (lb + 5) false) :=
     hp.here' ([LItem.label (lb + 1) false] ++ ii ++ [LItem.ljump ⟨o1, Gen.op_jump, []⟩ (some (lb + 5)), LItem.label (lb + 3) false] ++
         ([LItem.label sL false] ++ ops ++ [LItem.label eB false]) ++ [LItem.label (lb + 4) false] ++ ee) _ _ (by lst) (by len_omega)
-  have htgt5 : target cx.rs (lb + 5) = ⟨r, i0 + ii.length + ops.length + ee.length + 6⟩ :=
+  have htgt5 : target cx.rs (cx.cp.σ (lb + 5)) = ⟨r, i0 + ii.length + ops.length + ee.length + 6⟩ :=
     hp.lbl' cx.hlab ([LItem.label (lb + 1) false] ++ ii ++ [LItem.ljump ⟨o1, Gen.op_jump, []⟩ (some (lb + 5)), LItem.label (lb + 3) false] ++
         ([LItem.label sL false] ++ ops ++ [LItem.label eB false]) ++ [LItem.label (lb + 4) false] ++ ee) _ _ false (by lst) (by len_omega)
-  have hitT : itemAt cx.rs ⟨r, i0 + ii.length + ops.length + ee.length + 7⟩ = some (.ljump ⟨o2, hd.name, hd.params⟩ (some (lb + 3))) :=
+  have hitT : ItemC cx.cp cx.rs ⟨r, i0 + ii.length + ops.length + ee.length + 7⟩ (.ljump ⟨o2, hd.name, hd.params⟩ (some (lb + 3))) :=
     hp.here' ([LItem.label (lb + 1) false] ++ ii ++ [LItem.ljump ⟨o1, Gen.op_jump, []⟩ (some (lb + 5)), LItem.label (lb + 3) false] ++
         ([LItem.label sL false] ++ ops ++ [LItem.label eB false]) ++ [LItem.label (lb + 4) false] ++ ee ++ [LItem.label (lb + 5) false]) _ _
       (by lst) (by len_omega)
-  have hitE : itemAt cx.rs ⟨r, i0 + ii.length + ops.length + ee.length + 8⟩ = some (.label (lb + 2) false) :=
+  have hitE : ItemC cx.cp cx.rs ⟨r, i0 + ii.length + ops.length + ee.length + 8⟩ (.label (lb + 2) false) :=
     hp.here' ([LItem.label (lb + 1) false] ++ ii ++ [LItem.ljump ⟨o1, Gen.op_jump, []⟩ (some (lb + 5)), LItem.label (lb + 3) false] ++
         ([LItem.label sL false] ++ ops ++ [LItem.label eB false]) ++ [LItem.label (lb + 4) false] ++ ee ++
         [LItem.label (lb + 5) false, LItem.ljump ⟨o2, hd.name, hd.params⟩ (some (lb + 3))]) [] _ (by lst) (by len_omega)
-  have htgt2 : target cx.rs (lb + 2) = ⟨r, i0 + ii.length + ops.length + ee.length + 8⟩ :=
+  have htgt2 : target cx.rs (cx.cp.σ (lb + 2)) = ⟨r, i0 + ii.length + ops.length + ee.length + 8⟩ :=
     hp.lbl' cx.hlab ([LItem.label (lb + 1) false] ++ ii ++ [LItem.ljump ⟨o1, Gen.op_jump, []⟩ (some (lb + 5)), LItem.label (lb + 3) false] ++
         ([LItem.label sL false] ++ ops ++ [LItem.label eB false]) ++ [LItem.label (lb + 4) false] ++ ee ++
         [LItem.label (lb + 5) false, LItem.ljump ⟨o2, hd.name, hd.params⟩ (some (lb + 3))]) [] _ false (by lst) (by len_omega)
@@ -141,7 +140,7 @@ theorem for_core (cx : Cx) (fuel : Nat) (env : Src.Env) (he : EnvOK cx env) (lb 
     len_omega
   rw [hlen] at hend
   have hstepT := lab_test hitT (isTest_not_jump _ ht) ht
-  have hev : (⟨hd.name, convParams hd.params⟩ : Ev) = hdrEv hd := rfl
+  have hev : (⟨hd.name, convParams (hd.params.map cx.cp.sub)⟩ : Ev) = Src.substEv env.subst (hdrEv hd) := he.ev hd.name hd.params
   simp only [hev] at hstepT
   have hbrkAt : ∀ m' j', ExitsOK cx m' j' s env ∧ R2 cx m' j' ⟨r, i0 + (ii.length + ops.length + ee.length + 9)⟩ k →
       R2 cx m' j' ⟨r, i0 + ii.length + ops.length + ee.length + 8⟩ k := by
@@ -195,21 +194,21 @@ theorem for_core (cx : Cx) (fuel : Nat) (env : Src.Env) (he : EnvOK cx env) (lb 
   have hexp := (hbodyAt m j ⟨hex, hend⟩ hQ).2
   have hpush := Pushes.push b (.halt (evInvalid "loop test"))
   have hpI' : Pushes (b.push (.halt (evInvalid "loop test"))).1 RI.1 := by rw [← hRI]; exact hE.pushes _ _
-  have hpInit := hI.pushes (tbl b).length (RB.1.set (tbl b).length (.test (hdrEv hd) RB.2 k))
+  have hpInit := hI.pushes (tbl b).length (RB.1.set (tbl b).length (.test (Src.substEv env.subst (hdrEv hd)) RB.2 k))
   refine LabExport.mono hexp (hpush.trans hpI').len (fun i hi => (hpush.trans hpI').same hi) (fun i hi => ?_)
-  have hl4 : (tbl b).length ≤ (tbl (RB.1.set (tbl b).length (.test (hdrEv hd) RB.2 k))).length := hg4'.len
+  have hl4 : (tbl b).length ≤ (tbl (RB.1.set (tbl b).length (.test (Src.substEv env.subst (hdrEv hd)) RB.2 k))).length := hg4'.len
   rw [hpInit.same (by omega), tbl_set, List.getElem?_set_ne (by omega)]
 
 /-- `ForBlockCompileHandler.collect()` -/
 theorem for_pm (cx : Cx) (fuel : Nat) (env : Src.Env) (he : EnvOK cx env) (lb : Nat) (hd : Hdr) (init inc : Stmt) (body : Stmts)
     (initM incM bodyM : M (List LItem)) (ht : isTest hd.name = true)
     (hI : ∀ s items s', initM s = .ok (items, s') →
-      SimpleOK cx items (fun k b => Src.tr fuel [] env (toSrcStmt init) k b) ∧ SameStk s s')
+      SimpleOK cx items (fun k b => Src.tr fuel cx.sm env (toSrcStmt init) k b) ∧ SameStk s s')
     (hE : ∀ s items s', incM s = .ok (items, s') →
-      SimpleOK cx items (fun k b => Src.tr fuel [] env (toSrcStmt inc) k b) ∧ SameStk s s')
-    (hBody : ∀ env', EnvOK cx env' → PM cx bodyM (fun k b => Src.trStmts fuel [] env' (toSrcStmts body) k b) env') :
+      SimpleOK cx items (fun k b => Src.tr fuel cx.sm env (toSrcStmt inc) k b) ∧ SameStk s s')
+    (hBody : ∀ env', EnvOK cx env' → PM cx bodyM (fun k b => Src.trStmts fuel cx.sm env' (toSrcStmts body) k b) env') :
     PM cx (forOf lb hd initM incM bodyM)
-      (fun k b => Src.tr fuel [] env (.for_ (toSrcStmt init) (hdrEv hd) (toSrcStmt inc) (toSrcStmts body)) k b) env := by
+      (fun k b => Src.tr fuel cx.sm env (.for_ (toSrcStmt init) (hdrEv hd) (toSrcStmt inc) (toSrcStmts body)) k b) env := by
   intro s items s' h
   simp only [forOf, bind_ok, pushLoop_ok, popLoop_ok, pure_ok] at h
   obtain ⟨u1, s1, h1, ii, s2, h2, jj, s3, h3, blk, s4, h4, ee, s5, h5, br, s6, h6, u2, s7, h7, h8⟩ := h
